@@ -36,6 +36,7 @@ type caseFp struct {
 type fpWalker struct {
 	pushSlots map[string]int // helper name -> slots pushed
 	popSlots  map[string]int // helper name -> slots popped (-1: the argument)
+	rawFields [2]string      // the slice and its position field (direct access = `raw`)
 	out       *caseFp
 	err       error
 }
@@ -73,7 +74,7 @@ func (w *fpWalker) effects(n ast.Node, st []trackFp) []trackFp {
 			w.fail("function literal inside a case body")
 			return false
 		case *ast.SelectorExpr:
-			if id, ok := e.X.(*ast.Ident); ok && id.Name == "r" && (e.Sel.Name == "runtrack" || e.Sel.Name == "Runtrackpos") {
+			if id, ok := e.X.(*ast.Ident); ok && id.Name == "r" && (e.Sel.Name == w.rawFields[0] || e.Sel.Name == w.rawFields[1]) {
 				for i := range st {
 					st[i].raw = true
 				}
@@ -334,6 +335,12 @@ func caseLabel(e ast.Expr) (string, int, error) {
 
 // helperSlots reads how many slots a helper pushes (count of `r.Runtrackpos--`) or pops.
 func helperSlots(s *Src) (push, pop map[string]int, backtrackPops int, err error) {
+	return helperSlotsOf(s, "track", "Runtrackpos")
+}
+
+// helperSlotsOf: the same for the helpers `<stack>Push…` / `<stack>Pop…` over the position field posField
+// (`track`/`Runtrackpos`: the backtracking stack, plus backtrack(); `stack`/`Runstackpos`: the grouping stack).
+func helperSlotsOf(s *Src, stack, posField string) (push, pop map[string]int, backtrackPops int, err error) {
 	push, pop = map[string]int{}, map[string]int{}
 	f, err := s.file("runner.go")
 	if err != nil {
@@ -345,15 +352,16 @@ func helperSlots(s *Src) (push, pop map[string]int, backtrackPops int, err error
 			return false
 		}
 		id, ok := se.X.(*ast.Ident)
-		return ok && id.Name == "r" && se.Sel.Name == "Runtrackpos"
+		return ok && id.Name == "r" && se.Sel.Name == posField
 	}
+	pushPrefix, popPrefix := stack+"Push", stack+"Pop"
 	for _, d := range f.Decls {
 		fd, ok := d.(*ast.FuncDecl)
 		if !ok || fd.Recv == nil || fd.Body == nil {
 			continue
 		}
 		name := fd.Name.Name
-		if !strings.HasPrefix(name, "trackPush") && !strings.HasPrefix(name, "trackPop") && name != "backtrack" {
+		if !strings.HasPrefix(name, pushPrefix) && !strings.HasPrefix(name, popPrefix) && !(stack == "track" && name == "backtrack") {
 			continue
 		}
 		decs, incs, addParam, writes := 0, 0, false, 0
@@ -390,13 +398,13 @@ func helperSlots(s *Src) (push, pop map[string]int, backtrackPops int, err error
 		})
 		switch {
 		case other:
-			return nil, nil, 0, fmt.Errorf("%s changes Runtrackpos in an unexpected way", name)
-		case strings.HasPrefix(name, "trackPush"):
+			return nil, nil, 0, fmt.Errorf("%s changes %s in an unexpected way", name, posField)
+		case strings.HasPrefix(name, pushPrefix):
 			if incs != 0 || addParam || decs == 0 || writes != decs {
 				return nil, nil, 0, fmt.Errorf("%s is not a sequence of decrement-and-store pairs", name)
 			}
 			push[name] = decs
-		case strings.HasPrefix(name, "trackPop"):
+		case strings.HasPrefix(name, popPrefix):
 			if decs != 0 || writes != 0 {
 				return nil, nil, 0, fmt.Errorf("%s pushes", name)
 			}
@@ -414,8 +422,8 @@ func helperSlots(s *Src) (push, pop map[string]int, backtrackPops int, err error
 			backtrackPops = incs
 		}
 	}
-	if len(push) == 0 || len(pop) == 0 || backtrackPops == 0 {
-		return nil, nil, 0, fmt.Errorf("backtracking-stack helpers not found in runner.go")
+	if len(push) == 0 || len(pop) == 0 || (stack == "track" && backtrackPops == 0) {
+		return nil, nil, 0, fmt.Errorf("%s helpers not found in runner.go", stack)
 	}
 	return push, pop, backtrackPops, nil
 }
@@ -695,45 +703,65 @@ func init() {
 			return "", fmt.Errorf("executeDefault: switch on r.operator not found")
 		}
 		// what follows the switch must be exactly: BreakBackward: ; if err := r.backtrack(); err != nil { return err }
-		var cases []caseFp
-		seen := map[string]bool{}
-		for _, c := range sw.Body.List {
-			cc := c.(*ast.CaseClause)
-			if cc.List == nil {
-				continue // default: unknown opcode -> error return
+		walkCases := func(push, pop map[string]int, raw [2]string) ([]caseFp, error) {
+			var cases []caseFp
+			seen := map[string]bool{}
+			for _, c := range sw.Body.List {
+				cc := c.(*ast.CaseClause)
+				if cc.List == nil {
+					continue // default: unknown opcode -> error return
+				}
+				for _, l := range cc.List {
+					op, flag, err := caseLabel(l)
+					if err != nil {
+						return nil, err
+					}
+					if _, ok := consts[op]; !ok || flags[op] {
+						return nil, fmt.Errorf("executeDefault: case for unknown opcode %s", op)
+					}
+					key := fmt.Sprintf("%s/%d", op, flag)
+					if seen[key] {
+						return nil, fmt.Errorf("executeDefault: duplicate case %s", key)
+					}
+					seen[key] = true
+					fp := caseFp{op: op, flag: flag}
+					w := &fpWalker{pushSlots: push, popSlots: pop, rawFields: raw, out: &fp}
+					rest := w.walk(cc.Body, []trackFp{{}}, false, nil)
+					w.exit("back", rest) // falling out of the switch reaches BreakBackward
+					if w.err != nil {
+						return nil, w.err
+					}
+					if fp.paths == 0 {
+						return nil, fmt.Errorf("executeDefault: case %s has no path", key)
+					}
+					cases = append(cases, fp)
+				}
 			}
-			for _, l := range cc.List {
-				op, flag, err := caseLabel(l)
-				if err != nil {
-					return "", err
+			sort.SliceStable(cases, func(i, j int) bool {
+				if consts[cases[i].op] != consts[cases[j].op] {
+					return consts[cases[i].op] < consts[cases[j].op]
 				}
-				if _, ok := consts[op]; !ok || flags[op] {
-					return "", fmt.Errorf("executeDefault: case for unknown opcode %s", op)
-				}
-				key := fmt.Sprintf("%s/%d", op, flag)
-				if seen[key] {
-					return "", fmt.Errorf("executeDefault: duplicate case %s", key)
-				}
-				seen[key] = true
-				fp := caseFp{op: op, flag: flag}
-				w := &fpWalker{pushSlots: push, popSlots: pop, out: &fp}
-				rest := w.walk(cc.Body, []trackFp{{}}, false, nil)
-				w.exit("back", rest) // falling out of the switch reaches BreakBackward
-				if w.err != nil {
-					return "", w.err
-				}
-				if fp.paths == 0 {
-					return "", fmt.Errorf("executeDefault: case %s has no path", key)
-				}
-				cases = append(cases, fp)
-			}
+				return cases[i].flag < cases[j].flag
+			})
+			return cases, nil
 		}
-		sort.SliceStable(cases, func(i, j int) bool {
-			if consts[cases[i].op] != consts[cases[j].op] {
-				return consts[cases[i].op] < consts[cases[j].op]
-			}
-			return cases[i].flag < cases[j].flag
-		})
+		cases, err := walkCases(push, pop, [2]string{"runtrack", "Runtrackpos"})
+		if err != nil {
+			return "", err
+		}
+		// the same walk for the grouping stack (stackPush/stackPush2/stackPop/stackPopN over Runstackpos)
+		spush, spop, _, err := helperSlotsOf(s, "stack", "Runstackpos")
+		if err != nil {
+			return "", err
+		}
+		stackCases, err := walkCases(spush, spop, [2]string{"runstack", "Runstackpos"})
+		if err != nil {
+			return "", err
+		}
+		sc, err := stackConstants(s)
+		if err != nil {
+			return "", err
+		}
 
 		var b strings.Builder
 		b.WriteString("namespace RegexVerif.Generated.Opcodes\n\n")
@@ -824,7 +852,65 @@ structure CaseFp where
 			}
 			b.WriteString("\n")
 		}
-		b.WriteString("]\n\nend RegexVerif.Generated.Opcodes\n")
+		b.WriteString("]\n\n")
+
+		// ---- grouping stack and crawl stack (slice-stackcap)
+		b.WriteString("/-! grouping stack (`runstack`) and crawl stack (`runcrawl`) -/\n\n")
+		b.WriteString("/-- slots pushed by `stackPush` / `stackPush2` (number of `Runstackpos--; runstack[Runstackpos] = …` pairs) -/\n")
+		var sn []string
+		for n := range spush {
+			sn = append(sn, n)
+		}
+		sort.Strings(sn)
+		var ss []string
+		for _, n := range sn {
+			ss = append(ss, fmt.Sprintf("(%q, %d)", n, spush[n]))
+		}
+		fmt.Fprintf(&b, "def stackPushHelperSlots : List (String × Nat) := [%s]\n\n", strings.Join(ss, ", "))
+		b.WriteString(`/-- grouping-stack fingerprint of one ` + "`case`" + ` of the interpreter switch: slots pushed by stackPush/stackPush2
+    and popped by stackPop/stackPopN, max/min over the paths of the case body; maxNet = max of pushed − popped;
+    raw: touches runstack/Runstackpos directly; popAfterPush: some path pops after it pushed. -/
+structure StackFp where
+  op : Nat
+  flag : Nat
+  maxPush : Nat
+  minPop : Nat
+  maxPop : Nat
+  maxNet : Int
+  raw : Bool
+  popAfterPush : Bool
+  deriving DecidableEq, Repr
+
+`)
+		b.WriteString("def stackCases : List StackFp := [\n")
+		for i, c := range stackCases {
+			net := fmt.Sprint(c.maxNet)
+			if c.maxNet < 0 {
+				net = "(" + net + ")"
+			}
+			fmt.Fprintf(&b, "  ⟨%d, %d, %d, %d, %d, %s, %s, %s⟩", consts[c.op], c.flag, c.maxPush, c.minPop, c.maxPop, net,
+				leanBool(c.raw), leanBool(c.popAfterPush))
+			if i+1 < len(stackCases) {
+				b.WriteString(",")
+			}
+			fmt.Fprintf(&b, "  -- %s", c.op)
+			if c.flag == 1 {
+				b.WriteString(" | Back")
+			} else if c.flag == 2 {
+				b.WriteString(" | Back2")
+			}
+			b.WriteString("\n")
+		}
+		b.WriteString("]\n\n")
+		b.WriteString("/-- (opcode, flag, most grouping-stack slots pushed by the case) -/\n")
+		b.WriteString("def stackPushSlots : List (Nat × Nat × Nat) := stackCases.map fun c => (c.op, c.flag, c.maxPush)\n\n")
+		fmt.Fprintf(&b, "/-- `initMatch`: `stacksize := r.runtrackcount * %d; if stacksize < %d { stacksize = %d }` (no limit applies) -/\ndef stackAllocFactor : Nat := %d\ndef stackAllocMin : Nat := %d\n", sc.allocF, sc.allocM, sc.allocM, sc.allocF, sc.allocM)
+		fmt.Fprintf(&b, "/-- `initMatch`: `r.runcrawl = make([]int, %d)` -/\ndef crawlAlloc : Nat := %d\n", sc.crawl, sc.crawl)
+		fmt.Fprintf(&b, "/-- `ensureStorage`: `if r.Runstackpos < r.runtrackcount*%d { doubleIntSlice(&r.runstack, &r.Runstackpos) }` — an `if`, not a loop -/\ndef stackEnsureFactor : Nat := %d\n", sc.ensF, sc.ensF)
+		fmt.Fprintf(&b, "/-- `ensureStack(plus)`: `if r.Runstackpos-plus < r.runtrackcount*%d { doubleIntSlice(…) }` (exported StackPush… of the code-gen API) -/\ndef ensureStackFactor : Nat := %d\n", sc.ensStackF, sc.ensStackF)
+		fmt.Fprintf(&b, "/-- `doubleIntSlice`: `newS := make([]int, oldLen*%d); copy(newS[oldLen:], *s); *pos += oldLen` -/\ndef doubleFactor : Nat := %d\n", sc.dbl, sc.dbl)
+		fmt.Fprintf(&b, "/-- `crawl`: `if r.runcrawlpos == 0 { doubleIntSlice(&r.runcrawl, &r.runcrawlpos) }` before every push -/\ndef crawlChecksEveryPush : Bool := %s\n", leanBool(sc.crawlCheck))
+		b.WriteString("\nend RegexVerif.Generated.Opcodes\n")
 		return b.String(), nil
 	})
 }
